@@ -1058,11 +1058,11 @@ func init() {
 	// 4069967: reifyMap validates the entries it keeps
 	keptPass := "	keys := to.MapKeys()\n	sort.Slice(keys, func(i, j int) bool { return mapKeyLess(keys[i], keys[j]) })\n	for _, key := range keys {\n		if _, named := fields[key.String()]; named {\n			continue\n		}\n		if err := tryRecursiveValidate(to.MapIndex(key), opts, nil); err != nil {\n			return raiseValidation(from.ctx, from.metadata, \"\", err)\n		}\n	}\n"
 	addControl(control{Prop: "C04", Name: "kept-map-entries-not-validated", Rule: "R04k", Kind: "mutant", Quick: true,
-		File: "reify.go", Old: keptPass, New: "	_ = sort.Strings\n", Expect: "R04k/ucfg.reifyMap/successful return"})
+		File: "reify.go", Old: keptPass, New: "	_ = sort.Strings\n", Expect: "R04k/ucfg.reifyMap/successful return behind"})
 	addControl(control{Prop: "C04", Name: "kept-map-entries-validated-only-with-field-validators", Rule: "R04k", Kind: "mutant",
 		File: "reify.go", Old: "		if err := tryRecursiveValidate(to.MapIndex(key), opts, nil); err != nil {\n			return raiseValidation(from.ctx, from.metadata, \"\", err)\n		}\n", New: "		if len(validators) > 0 {\n			if err := tryRecursiveValidate(to.MapIndex(key), opts, nil); err != nil {\n				return raiseValidation(from.ctx, from.metadata, \"\", err)\n			}\n		}\n", Expect: "R04k/ucfg.reifyMap/pass over kept entries"})
 	addControl(control{Prop: "C04", Name: "kept-map-entries-skipped-by-an-early-return", Rule: "R04k", Kind: "mutant",
-		File: "reify.go", Old: "	keys := to.MapKeys()\n	sort.Slice(keys, func(i, j int) bool { return mapKeyLess(keys[i], keys[j]) })\n	for _, key := range keys {\n		if _, named := fields[key.String()]; named {", New: "	if len(validators) == 0 && to.Len() == len(fields) {\n		return nil\n	}\n	keys := to.MapKeys()\n	sort.Slice(keys, func(i, j int) bool { return mapKeyLess(keys[i], keys[j]) })\n	for _, key := range keys {\n		if _, named := fields[key.String()]; named {", Expect: "R04k/ucfg.reifyMap/successful return"})
+		File: "reify.go", Old: "	keys := to.MapKeys()\n	sort.Slice(keys, func(i, j int) bool { return mapKeyLess(keys[i], keys[j]) })\n	for _, key := range keys {\n		if _, named := fields[key.String()]; named {", New: "	if len(validators) == 0 && to.Len() == len(fields) {\n		return nil\n	}\n	keys := to.MapKeys()\n	sort.Slice(keys, func(i, j int) bool { return mapKeyLess(keys[i], keys[j]) })\n	for _, key := range keys {\n		if _, named := fields[key.String()]; named {", Expect: "R04k/ucfg.reifyMap/successful return behind"})
 	addControl(control{Prop: "C04", Name: "kept-map-entries-named-test-on-another-key", Rule: "R04k", Kind: "mutant",
 		File: "reify.go", Old: "		if _, named := fields[key.String()]; named {\n			continue\n		}\n		if err := tryRecursiveValidate(to.MapIndex(key)", New: "		if _, named := fields[keys[0].String()]; named {\n			continue\n		}\n		if err := tryRecursiveValidate(to.MapIndex(key)", Expect: "R04k/ucfg.reifyMap/pass over kept entries"})
 	addControl(control{Prop: "C04", Name: "kept-map-entries-inverted-test", Rule: "R04k", Kind: "refactor",
@@ -1159,4 +1159,46 @@ func init() {
 		File: "util.go", Old: "reflect.Uint32, reflect.Uint64, reflect.Uintptr:\n		return true", New: "reflect.Uint32, reflect.Uint64:\n		return true", Expect: "R03h/ucfg.kind predicates/kind Uintptr"})
 	addControl(control{Prop: "C03", Name: "unsigned-kinds-by-range", Rule: "R03h", Kind: "refactor",
 		File: "util.go", Old: "func isUint(k reflect.Kind) bool {\n	switch k {\n	case reflect.Uint, reflect.Uint8, reflect.Uint16, reflect.Uint32, reflect.Uint64, reflect.Uintptr:\n		return true\n	default:\n		return false\n	}\n}", New: "func isUint(k reflect.Kind) bool {\n	return reflect.Uint <= k && k <= reflect.Uintptr\n}"})
+}
+
+func init() {
+	// 8c56d44: the validators list uintptr
+	addControl(control{Prop: "C04", Name: "min-without-a-case-for-uintptr", Rule: "R04l", Kind: "mutant", Quick: true,
+		File: "validator.go", Old: "	case reflect.Uint, reflect.Uint8, reflect.Uint16, reflect.Uint32, reflect.Uint64, reflect.Uintptr:\n		min, err := strconv.ParseUint(param, 0, 64)", New: "	case reflect.Uint, reflect.Uint8, reflect.Uint16, reflect.Uint32, reflect.Uint64:\n		min, err := strconv.ParseUint(param, 0, 64)", Expect: "R04l/ucfg.validateMin"})
+}
+
+func init() {
+	// round 11 (C19-r11a/b): a loader with a memory, a collector that adopts
+	addControl(control{Prop: "C19", Name: "file-loader-remembers-what-it-loaded", Rule: "R19i", Kind: "mutant", Quick: true,
+		File: "flag/file.go", Old: "	return newFlagValue(cfg, opts, func(path string) (*ucfg.Config, error, error) {\n		ext := filepath.Ext(path)\n", New: "	seen := map[string]bool{}\n	return newFlagValue(cfg, opts, func(path string) (*ucfg.Config, error, error) {\n		if seen[path] {\n			return nil, nil, nil\n		}\n		seen[path] = true\n		ext := filepath.Ext(path)\n", Expect: "R19i/flag.NewFlagFiles"})
+	addControl(control{Prop: "C19", Name: "file-loader-with-a-local-table", Rule: "R19i", Kind: "refactor",
+		File: "flag/file.go", Old: "		ext := filepath.Ext(path)\n		loader := extensions[ext]\n", New: "		tried := map[string]bool{}\n		ext := filepath.Ext(path)\n		tried[ext] = true\n		loader := extensions[ext]\n"})
+	addControl(control{Prop: "C19", Name: "collector-adopts-the-first-config", Rule: "R19j", Kind: "mutant", Quick: true,
+		File: "cfgutil/cfgutil.go", Old: "	if cfg != nil {\n		err = c.config.Merge(cfg, c.opts...)\n", New: "	if cfg != nil {\n		if len(c.config.GetFields()) == 0 && !c.config.IsArray() {\n			c.config = cfg\n			return nil\n		}\n		err = c.config.Merge(cfg, c.opts...)\n", Expect: "R19j/(*cfgutil.Collector).Add"})
+	addControl(control{Prop: "C19", Name: "collector-config-made-on-demand", Rule: "R19j", Kind: "refactor",
+		File: "cfgutil/cfgutil.go", Old: "func (c *Collector) Config() *ucfg.Config {\n	return c.config\n}", New: "func (c *Collector) Config() *ucfg.Config {\n	if c.config == nil {\n		c.config = ucfg.New()\n	}\n	return c.config\n}"})
+}
+
+func init() {
+	// round 11 (C15-r11b): a merge walk over the two key lists is fine as long as FlattenedKeys sorts with sort.Strings
+	addControl(control{Prop: "C15", Name: "diff-by-one-pass-over-sorted-keys", Rule: "R15n", Kind: "refactor",
+		File: "diff/keys.go", Old: "\tdifference := make(map[string]Type)\n\n\t// Map for candidates check\n\tfor _, k := range oldKeys {\n\t\tdifference[k] = Remove\n\t}\n\n\tfor _, nk := range newKeys {\n\t\tif _, ok := difference[nk]; ok {\n\t\t\tdifference[nk] = Keep\n\t\t} else {\n\t\t\tdifference[nk] = Add\n\t\t}\n\t}\n\n\tinvert := make(Diff)\n\n\tfor k, v := range difference {\n\t\tinvert[v] = append(invert[v], k)\n\t}\n\n\treturn invert\n", New: "\td := make(Diff)\n\ti, j := 0, 0\n\tfor i < len(oldKeys) && j < len(newKeys) {\n\t\tswitch {\n\t\tcase oldKeys[i] == newKeys[j]:\n\t\t\td[Keep] = append(d[Keep], oldKeys[i])\n\t\t\ti++\n\t\t\tj++\n\t\tcase oldKeys[i] < newKeys[j]:\n\t\t\td[Remove] = append(d[Remove], oldKeys[i])\n\t\t\ti++\n\t\tdefault:\n\t\t\td[Add] = append(d[Add], newKeys[j])\n\t\t\tj++\n\t\t}\n\t}\n\tif i < len(oldKeys) {\n\t\td[Remove] = append(d[Remove], oldKeys[i:]...)\n\t}\n\tif j < len(newKeys) {\n\t\td[Add] = append(d[Add], newKeys[j:]...)\n\t}\n\treturn d\n"})
+}
+
+func init() {
+	// round 11 (C14-r11a/b)
+	addControl(control{Prop: "C14", Name: "path-error-handed-back-undecorated", Rule: "R14i", Kind: "mutant", Quick: true,
+		File: "error.go", Old: "func raisePathErr(reason error, meta *Meta, message, path string) Error {\n", New: "func raisePathErr(reason error, meta *Meta, message, path string) Error {\n	if err, ok := reason.(Error); ok && message == \"\" && err.Path() != \"\" {\n		return err\n	}\n", Expect: "R14i/ucfg.raisePathErr"})
+	for _, pr := range [][2]string{{"C14", "R14j"}, {"C15", "R15o"}} {
+		addControl(control{Prop: pr[0], Name: "rendering-a-path-writes-into-the-parent-node", Rule: pr[1], Kind: "mutant", Quick: true,
+			File: "types.go", Old: "	p := c.parent.Context()\n	if p.parent == nil && p.field == \"\" {\n		return c.field\n	}\n", New: "	p := c.parent.Context()\n	if p.parent == nil && p.field == \"\" {\n		return c.field\n	}\n	if s, ok := c.parent.(cfgSub); ok && s.c.metadata == nil {\n		s.c.metadata = &Meta{}\n	}\n", Expect: pr[1] + "/(*ucfg.context).path"})
+		addControl(control{Prop: pr[0], Name: "path-rendered-with-a-builder", Rule: pr[1], Kind: "refactor",
+			File: "types.go", Old: "	return fmt.Sprintf(\"%v%v%v\", p.path(sep), sep, c.field)\n", New: "	parts := []string{p.path(sep), c.field}\n	return parts[0] + sep + parts[1]\n"})
+	}
+}
+
+func init() {
+	// round 11 (C06-r11b): an object read as a list of one
+	addControl(control{Prop: "C06", Name: "object-read-as-a-list-of-one", Rule: "R06l", Kind: "mutant", Quick: true,
+		File: "reify.go", Old: "	if sub, ok := v.(cfgSub); ok {\n		return sub.c.fields.array(), nil\n	}\n	if ref, ok := v.(*cfgDynamic); ok {", New: "	if sub, ok := v.(cfgSub); ok {\n		if arr := sub.c.fields.array(); len(arr) > 0 || len(sub.c.fields.dict()) == 0 {\n			return arr, nil\n		}\n		return []value{sub}, nil\n	}\n	if ref, ok := v.(*cfgDynamic); ok {", Expect: "R06l/ucfg.castArr"})
 }
